@@ -316,8 +316,7 @@ func (t *c15Tracer) MutationQueued(_ am.Api, mut *am.Mutation) {
 			t.open[gid] = r
 		}
 	case c15S.KillingWorker:
-		if t.inTx {
-			a := am.ParseArgs[node.A](mut.Args)
+		if a := am.ParseArgs[node.A](mut.Args); t.inTx && a.Id != c15DriverId {
 			t.cur.Kills = append(t.cur.Kills, t.key(a.LocalAddr))
 		}
 	}
@@ -549,6 +548,9 @@ type c15Worker struct {
 
 var c15Seq atomic.Int64
 
+// c15DriverId marks mutations the driver itself queues
+const c15DriverId = "c15-driver"
+
 // c15StopWorker stops a real worker, giving up after 2s: Worker.Stop ->
 // Machine.Remove1 can deadlock against a concurrent Machine.Dispose of the same
 // machine (processQueue holds queueMx and wants subs.Mx in ProcessWhenQueueEnds,
@@ -663,11 +665,23 @@ func c15LiveKeys(recs []c15Rec) map[int]bool {
 	return live
 }
 
+// readyCount asks the supervisor for its ready workers; -1 when no answer was
+// obtained. Workers() fails although the listing ran when Machine.Add returns
+// Canceled to a caller that finds the queue already emptied by the goroutine
+// running it: an error is not "nobody is ready"
 func (r *c15Run) readyCount() int {
-	ctx, cancel := context.WithTimeout(r.ctx, time.Second)
-	defer cancel()
-	ws, _ := r.s.Workers(ctx, node.StateReady)
-	return len(ws)
+	for try := 0; try < 4; try++ {
+		ctx, cancel := context.WithTimeout(r.ctx, time.Second)
+		ws, err := r.s.Workers(ctx, node.StateReady)
+		expired := ctx.Err() != nil
+		cancel()
+		if err == nil && !expired {
+			return len(ws)
+		}
+		r.note(fmt.Sprintf("readyCount: no answer (%v), try %d", err, try+1))
+		time.Sleep(time.Millisecond)
+	}
+	return -1
 }
 
 func (r *c15Run) expectedReady() int {
@@ -883,7 +897,9 @@ func (r *c15Run) step(st C15Step) {
 			return
 		}
 		r.killMode.Store(int32(st.N))
-		s.Mach.Add1(c15S.KillingWorker, node.Pass(&node.A{LocalAddr: addr}))
+		// marked: the tracer attributes KillingWorker requests to the transition
+		// in progress (ErrWorkerState's), this one comes from outside
+		s.Mach.Add1(c15S.KillingWorker, node.Pass(&node.A{LocalAddr: addr, Id: c15DriverId}))
 		r.quiet(100 * time.Millisecond)
 		r.killMode.Store(0)
 	case "killed":
@@ -936,6 +952,17 @@ func (r *c15Run) step(st C15Step) {
 		switch st.Op {
 		case "flip":
 			pre := r.readyCount()
+			known := pre >= 0
+			if !known {
+				// no answer: fall back on the last sample, exactness is given up
+				r.tr.mx.Lock()
+				if n := len(r.tr.recs); n > 0 {
+					pre = r.tr.recs[n-1].Ready
+				} else {
+					pre = 0
+				}
+				r.tr.mx.Unlock()
+			}
 			r.unstable.Add(1)
 			r.tr.mx.Lock()
 			k := r.tr.keys[cw.w.LocalAddr]
@@ -953,8 +980,10 @@ func (r *c15Run) step(st C15Step) {
 			// given up for the rest of the case
 			now := pre
 			moved := r.waitFor(2*time.Second, func() bool {
-				now = r.readyCount()
-				if now != pre {
+				if n := r.readyCount(); n >= 0 {
+					now = n
+				}
+				if known && now != pre {
 					return true
 				}
 				time.Sleep(5 * time.Millisecond)
